@@ -19,7 +19,7 @@ func init() {
 			{Name: "mixed-uploads", Pkg: "queryer", Files: []string{"queryer/c11.go"}, Entry: "VerifMixedUploads", Mode: "seq",
 				Quick:    map[string]int{"nmax": 4, "mmax": 3},
 				Thorough: map[string]int{"nmax": 6, "mmax": 4},
-				Reach:    []string{"uploads mixed with plain requests"}, Functions: fns},
+				Reach:    []string{"uploads mixed with plain requests", "upload answered with nothing"}, Functions: fns},
 			{Name: "splice-inductive-step", Pkg: "queryer", Files: []string{"queryer/c11.go"}, Entry: "VerifSplice", Mode: "seq",
 				Quick:    map[string]int{"nmax": 8},
 				Thorough: map[string]int{"nmax": 12},
